@@ -196,6 +196,33 @@ def rule_create(ctx):
     ctx.check('create', 'final-names-by-rename', len(rn) == 3, None, '%d rename sites' % len(rn))
 
 
+def rule_stale(ctx):
+    """files already present in the dump folder do not change the result: the dump callbacks never inspect the
+    file system (no directory listing, no existence/metadata test, no open-for-read), and what they rename is named
+    by constants, not discovered"""
+    prog = ctx.prog
+    cbs = sorted(set(b.impl_self for b in prog.bodies.values() if b.impl_trait and b.impl_trait.endswith('callbacks::Callback') and b.impl_self))
+    for cb in cbs:
+        roots = [b for b in prog.bodies.values() if b.impl_self == cb]
+        reach = prog.reachable_bodies(roots)
+        bad = []
+        for rb in reach:
+            ctx.touch(rb)
+            for c in rb.calls:
+                if re.search(FS_READ, c.name) or re.search(r'^std::path::Path::(try_exists|metadata|read_dir|symlink_metadata|is_symlink)', c.name):
+                    bad.append(c)
+        ctx.check('stale', 'never-inspects-the-dump-folder:%s' % cb.split('::')[-1], not bad, bad[0] if bad else None,
+                  '%d bodies of %s read nothing from the file system' % (len(reach), cb.split('::')[-1]),
+                  bad_detail='%s: the result of %s depends on files that happen to be present (stale *.tmp files or earlier results)'
+                  % (', '.join('%s in %s' % (c.name, c.body.path.split('::')[-1]) for c in bad[:3]), cb.split('::')[-1]))
+    for cs in prog.all_calls():
+        if cs.name != 'std::fs::rename':
+            continue
+        src = util.string_values(prog, cs.body, cs.body.op_expr(cs.args[0]))
+        ctx.check('stale', 'rename-source-is-constant:%s' % (cs.body.impl_self or cs.body.path).split('::')[-1], src is not None and all(x.endswith('.tmp') for x in src), cs,
+                  'renames %s' % sorted(src or []), bad_detail='the renamed file is not one of a fixed list of own tmp files: %s' % mir.show(cs.body.op_expr(cs.args[0]))[:200])
+
+
 HASH_ITER_ALLOWED = {
     ('<callbacks::unspentcsvdump::UnspentCsvDump as callbacks::Callback>::on_complete', 'iter'): 'row set of the unspent dump (order unspecified by the property)',
     ('<callbacks::balances::Balances as callbacks::Callback>::on_complete', 'values'): 'grouping by address is commutative (u64 addition)',
@@ -233,11 +260,12 @@ def rule_hashorder(ctx):
 
 def run(ctx):
     ctx.trusted += ['rayon: collect of an indexed parallel iterator preserves order', 'rusty-leveldb open/iteration does not change key/value content']
-    for r, f in (('par', rule_par), ('pure', rule_pure), ('ambient', rule_ambient), ('readonly', rule_readonly), ('create', rule_create), ('hashorder', rule_hashorder)):
+    for r, f in (('par', rule_par), ('pure', rule_pure), ('ambient', rule_ambient), ('readonly', rule_readonly), ('create', rule_create), ('stale', rule_stale), ('hashorder', rule_hashorder)):
         ctx.guard(r, f)
     ctx.floor('par', 10)
     ctx.floor('pure', 7)
     ctx.floor('ambient', 10)
     ctx.floor('readonly', 20)
     ctx.floor('create', 5)
+    ctx.floor('stale', 8)
     ctx.floor('hashorder', 7)
